@@ -136,7 +136,10 @@ public:
 
   linear_expression(Number n, variable_t x)
       : _map(std::make_shared<map_t>()), _cst(0) {
-    this->_map->insert(pair_t(x, n));
+    if (n != 0) {
+      // zero coefficients are never stored
+      this->_map->insert(pair_t(x, n));
+    }
   }
 
   linear_expression(const linear_expression_t &e) = default;
